@@ -222,12 +222,18 @@ package rule
 //
 // fromAuditRuleData copies list, action and the triples back, recognises the
 // all-syscalls pattern exactly, and never reads a string past the buffer.
+//@ rec unfold strOff(a *auditRuleData, i int) int :=
+//@   if i <= 0 then 0 else strOff(a, i - 1) + (if isStringField(a.Fields[i - 1]) then a.Values[i - 1] else 0)
+//@ rec unfold strCnt(a *auditRuleData, i int) int :=
+//@   if i <= 0 then 0 else strCnt(a, i - 1) + (if isStringField(a.Fields[i - 1]) then 1 else 0)
 //@ func (*rule.ruleData).fromAuditRuleData
-//@ requires r != nil && in != nil && in.BufLen <= len(in.Buf) && len(r.syscalls) == 0 && lo(r.syscalls) == 0
+//@ requires r != nil && in != nil && in.BufLen <= len(in.Buf) && len(r.syscalls) == 0 && lo(r.syscalls) == 0 && len(r.strings) == 0 && lo(r.strings) == 0
 //@ modifies r.*, alloc
 //@ ensures[C07] isNil(result0) ==> in.FieldCount <= 64 && r.flags == in.Flags && r.action == in.Action
 //@ ensures[C07] isNil(result0) ==> len(r.fields) == in.FieldCount && len(r.values) == in.FieldCount && len(r.fieldFlags) == in.FieldCount
 //@ ensures[C07] isNil(result0) ==> forall i int :: 0 <= i && i < in.FieldCount ==> r.fields[i] == in.Fields[i] && r.values[i] == in.Values[i] && r.fieldFlags[i] == in.FieldFlags[i]
+//@ ensures[C07] isNil(result0) ==> len(r.strings) == strCnt(in, in.FieldCount)
+//@ ensures[C07] isNil(result0) ==> forall j int :: 0 <= j && j < in.FieldCount && isStringField(in.Fields[j]) ==> strCnt(in, j) < len(r.strings) && at(r.strings, lo(r.strings) + strCnt(in, j)) == strOf(in.Buf[strOff(in, j):strOff(in, j) + in.Values[j]])
 //@ ensures[C07] isNil(result0) ==> (r.allSyscalls <==> (forall w int :: 0 <= w && w < 63 ==> in.Mask[w] == 4294967295))
 // the syscall list decoded from the mask: every listed number is below 2048 and has
 // its bit set. (That every set bit is listed was provable only as a forall-exists
@@ -238,5 +244,10 @@ package rule
 //@ loop 2 invariant bit <= 32 && lo(r.syscalls) == 0 && forall j int :: lo(r.syscalls) <= j && j < hi(r.syscalls) ==> at(r.syscalls, j) < 32 * word + bit && bitand32(in.Mask[at(r.syscalls, j) / 32], pow2(at(r.syscalls, j) % 32)) != 0
 //@ loop 0 invariant 0 <= i && i <= 63 && (r.allSyscalls <==> (forall w int :: 0 <= w && w < i ==> in.Mask[w] == 4294967295))
 //@ loop 3 invariant offset <= in.BufLen
+// the strings are cut out of the buffer back to back, in field order: string number
+// strCnt(j) (the number of string fields before field j) starts at strOff(j) (the
+// sum of their lengths) and is Values[j] bytes long
+//@ loop 3 invariant offset == strOff(in, i) && len(r.strings) == strCnt(in, i) && lo(r.strings) == 0
+//@ loop 3 invariant forall j int :: 0 <= j && j < i && isStringField(in.Fields[j]) ==> strCnt(in, j) < len(r.strings) && at(r.strings, strCnt(in, j)) == strOf(in.Buf[strOff(in, j):strOff(in, j) + in.Values[j]])
 //@ loop 3 invariant i <= in.FieldCount && len(r.fields) == in.FieldCount && len(r.values) == in.FieldCount && len(r.fieldFlags) == in.FieldCount
 //@ loop 3 invariant forall k int :: 0 <= k && k < i ==> r.fields[k] == in.Fields[k] && r.values[k] == in.Values[k] && r.fieldFlags[k] == in.FieldFlags[k]
